@@ -645,7 +645,14 @@ func sortedMapKeys(m reflect.Value) []reflect.Value {
 		}
 		ti, tj := text(keys[i]), text(keys[j])
 		if ti == tj {
-			return keyTypeName(keys[i]) < keyTypeName(keys[j])
+			ni, nj := keyTypeName(keys[i]), keyTypeName(keys[j])
+			if ni == nj {
+				// Array and struct keys of one type can print alike and still differ
+				// ([2]string{"a b", "c"} and {"a", "b c"}): their Go-syntax form quotes the
+				// strings, so it tells them apart
+				return fmt.Sprintf("%#v", keys[i]) < fmt.Sprintf("%#v", keys[j])
+			}
+			return ni < nj
 		}
 		return ti < tj
 	})
